@@ -159,6 +159,31 @@ class C07(ost.OutstationProp):
                                                               "self": 0, "addr": own},
                                              [("feed", hexs(f)) for f in feeds]),
                             {"kind": "fcb", "role": role, "truth": [list(t) for t in truth], "own": own}))
+        # fragments must not be assembled from segments of different senders: a foreign station's FIR segment
+        # followed by the configured peer's segments with the next transport sequence numbers (engine treader;
+        # seeded change C07_c: the same-sender test of the assembler never true over TCP/serial)
+        for _ in range(40 if tier == "quick" else 600):
+            own, peer, foreign = 1024, 1, rng.choice([2, 7, 60000])
+            seq = rng.below(64)
+            a = rng.bytes(rng.choice([1, 10, 249]))
+            b = rng.bytes(rng.choice([1, 10, 249, 100]))
+            c = rng.bytes(rng.range(1, 30))
+            order = rng.choice(["foreign-first", "foreign-first", "foreign-middle", "foreign-last"])
+            segs = []
+            if order == "foreign-first":
+                segs = [(0x40 | seq, a, foreign), (0x80 | ((seq + 1) & 63), b, peer)]
+            elif order == "foreign-middle":
+                segs = [(0x40 | seq, a, peer), ((seq + 1) & 63, b, foreign), (0x80 | ((seq + 2) & 63), c, peer)]
+            else:
+                segs = [(0x40 | seq, a, peer), (0x80 | ((seq + 1) & 63), b, foreign)]
+            whole = rng.bytes(rng.range(1, 40))
+            segs.append((0xC0 | rng.below(64), whole, peer))            # a complete single-segment fragment afterwards
+            feeds = [dnp.link_frame(0xC4, own, s_, bytes([t]) + d) for t, d, s_ in segs]
+            sid = "c07_%d" % i; i += 1
+            out.append(Case(sid, script_text(sid, "treader", {"mode": "discard", "read": "stream", "frag": 2048, "role": "outstation",
+                                                                "self": 0, "addr": own, "decode": rng.below(4)},
+                                             [("feed", hexs(f)) for f in feeds]),
+                            {"kind": "splice", "order": order, "only": hexs(whole), "dest": order}))
         return out
 
     def oracle(self, case, impl):
@@ -166,6 +191,15 @@ class C07(ost.OutstationProp):
         if m.get("engine") == "outstation":
             return self.oracle_session(case, impl)
         fails = []
+        if m.get("kind") == "splice":
+            for l in impl:
+                if l.startswith("panic") or l.startswith("harness-died") or l == "missing":
+                    fails.append(("no-panic", "transport reader failed: " + l[:200]))
+            got = [l.split()[4] for l in impl if l.startswith("frag ") and len(l.split()) >= 5]
+            if got != [m["only"]]:
+                fails.append(("spliced-from-foreign-source", "segments of two senders (%s) were assembled into a fragment, or the following "
+                              "complete fragment was lost: delivered %s" % (m["order"], [g[:24] for g in got])))
+            return fails
         for l in impl:
             if l.startswith("panic") or l.startswith("harness-died") or l == "missing" or l.startswith("err "):
                 fails.append(("no-panic", "link layer failed on well-formed frames: " + l[:200]))
